@@ -271,12 +271,29 @@ def execute(plan, prop):
                         # a freshly built object with the same parameters and unitaries: whatever the long-lived
                         # object remembers from its history must not make its gradients differ from this one's
                         # ... evaluated ROW BY ROW, so that nothing depends on how a batch is grouped by basis
+                        # The rotated gradient divides by a probability that is a sum of cancelling terms, so the
+                        # row-by-row value and the library's grouped value legitimately differ by rounding that
+                        # grows with 1/probability (seen: 1e-7 at |g|~14).  Hence two references: the same twin
+                        # evaluated on the whole batch (same arithmetic: tight tolerance) and row by row (loose
+                        # tolerance scaled by the largest single-row gradient entry).
                         tw = fresh_twin(state)
                         g = None
+                        row_mag = 0.0
                         for ri_ in range(samples_batch.shape[0]):
                             gi = tw.gradient(samples_batch[ri_ : ri_ + 1], bases=bases_batch[ri_ : ri_ + 1])
                             gi = [x if isinstance(x, torch.Tensor) else torch.zeros(getattr(state, net).num_pars, dtype=torch.double) + float(x) for x, net in zip(gi, state.networks)]
+                            for x_ in gi:
+                                if x_.numel():
+                                    m_ = float(x_.detach().abs().max())
+                                    if m_ == m_ and m_ != float("inf"):
+                                        row_mag = max(row_mag, m_)
                             g = gi if g is None else [a_ + b_ for a_, b_ in zip(g, gi)]
+                        ref["row_mag"] = row_mag
+                        gb = fresh_twin(state).gradient(samples_batch, bases=bases_batch)
+                        ref["pos_batch"] = [
+                            (x.detach().numpy().astype(np.float64) / B) if isinstance(x, torch.Tensor) else np.zeros(getattr(state, net).num_pars) + float(x)
+                            for x, net in zip(gb, state.networks)
+                        ]
                         ref["pos"] = [
                             (x.detach().numpy().astype(np.float64) / B) if isinstance(x, torch.Tensor) else np.zeros(getattr(state, net).num_pars) + float(x)
                             for x, net in zip(g, state.networks)
@@ -611,6 +628,12 @@ def execute(plan, prop):
                     expected = {"rbm_am": exp_am}
                     if len(state.networks) > 1:
                         expected["rbm_ph"] = ref["pos"][1]
+                    expected_b = None
+                    if ref.get("pos_batch") is not None:
+                        expected_b = {"rbm_am": ref["pos_batch"][0] - f.eff_energy_grad_sum(v_end) / nneg}
+                        if len(state.networks) > 1:
+                            expected_b["rbm_ph"] = ref["pos_batch"][1]
+                    loose = 1e-5 * float(ref.get("row_mag") or 0.0)
                     ok_step = True
                     for net in state.networks:
                         ptr = 0
@@ -627,7 +650,15 @@ def execute(plan, prop):
                                 ok_step = False
                                 continue
                             tol = 1e-9 * max(1.0, float(np.max(np.abs(want))) if want.size else 1.0)
-                            if got.shape != want.shape or not np.allclose(got, want, rtol=0, atol=tol, equal_nan=True):
+                            bad = got.shape != want.shape or not np.allclose(got, want, rtol=0, atol=max(tol, loose), equal_nan=True)
+                            if not bad and expected_b is not None:
+                                # same arithmetic as the library (whole batch, fresh object): tight
+                                want_b = expected_b[net][ptr - num : ptr].reshape(tuple(p.shape))
+                                tol_b = 1e-9 * max(1.0, float(np.max(np.abs(want_b))) if want_b.size else 1.0)
+                                if not np.allclose(got, want_b, rtol=0, atol=tol_b, equal_nan=True) and not np.allclose(got, want, rtol=0, atol=tol, equal_nan=True):
+                                    bad = True
+                                    want = want_b
+                            if bad:
                                 dev = float(np.nanmax(np.abs(got - want))) if got.shape == want.shape else float("inf")
                                 run.violate(
                                     "6-grad",
